@@ -36,7 +36,7 @@ TECHNIQUE = "property-based round-trip testing: generated source is executed and
 LEVEL_TEXT = "Generated models with deliberately shared and same-named functions; the generated source is executed and compared structurally and numerically with the original."
 LEVEL_NOTE = "Trusted: Model queries (C01/C13) on both sides; CPython exec."
 
-MATH_FNS = {"floordiv2", "mod_half", "circle", "root", "euler"}
+MATH_FNS = {"floordiv2", "mod_half", "neg_mod", "circle", "root", "euler"}
 
 
 def budget(tier: str) -> dict:
